@@ -89,7 +89,11 @@ def check_pdu(ctx, r, kind, v, sub = "pdu"):
 	ctx.seen(hash((kind, want)))
 	ctx.count("pdus:%s" % kind)
 	pdu = mk(kind)
-	set_vals(pdu, kind, v)
+	try:
+		set_vals(pdu, kind, v)
+	except AttributeError as e:
+		ctx.violation(sub, w, what = "%s cannot be given its field values: %s (the definition is not a complete codec envelope)" % (CLASSES[kind], e))
+		return
 	try:
 		enc = pdu.to_bytes()
 	except Exception as e:
